@@ -130,6 +130,23 @@ func (n *GSNet) send(from, to peer.ID, m *gsMsg) {
 	}
 }
 
+// Busy reports whether a graphsync message is still queued or in the middle of being delivered (its handler - a
+// library hook - has not returned).
+func (n *GSNet) Busy() bool {
+	busy := false
+	for _, q := range n.q {
+		if len(q) > 0 {
+			busy = true
+		}
+	}
+	for _, p := range n.pump {
+		if p {
+			busy = true
+		}
+	}
+	return busy
+}
+
 // FIFO per direction, arbitrary delay: the pump is an ordinary task the driver schedules at will.
 func (n *GSNet) runPump(k [2]peer.ID) {
 	for len(n.q[k]) > 0 {
